@@ -11,6 +11,9 @@
 (*   3. the sets of violating edges / probes are listed in the report so    *)
 (*      that every distinct finding gets its own key.                       *)
 (*                                                                         *)
+(* The configuration (TR_CFG) names the tracker's mode: trusted oracles and   *)
+(* allow_deep_reorgs (K.deep); the projection of a state carries, next to    *)
+(* the tracker's variables, the chain below the remembered headers (anc).    *)
 (* Nodes[i+1] = [id, pre, x, e, p]: implementation state i, its projection, *)
 (* whether it was expanded, its edges <<to, request, ok, err, changed>> and *)
 (* its probes <<refused request q, probe request r, ok, err, to>>.          *)
@@ -25,12 +28,12 @@ Alphabet == JsonDeserialize(IOEnv.TR_ALPHABET)
 Cfg      == JsonDeserialize(IOEnv.TR_CFG)
 EnvNat(s) == CHOOSE n \in 0..5000 : ToString(n) = s
 K == [interval |-> EnvNat(IOEnv.TR_INTERVAL), maxReorg |-> EnvNat(IOEnv.TR_MAXREORG),
-      trusted |-> SeqSet(Cfg.trusted),
+      trusted |-> SeqSet(Cfg.trusted), deep |-> Cfg.deep,
       popFirst |-> IOEnv.TR_POP_FIRST = "true", keepDecode |-> IOEnv.TR_KEEP_DECODE = "true"]
 
 \* implementation projection -> specification state (the decode states are hidden: a state
 \* of the graph is a freshly restored tracker, which has none)
-FromJson(j) == [h |-> j.h, tip |-> j.tip, win |-> j.win,
+FromJson(j) == [h |-> j.h, tip |-> j.tip, win |-> j.win, anc |-> j.anc,
                 ls |-> [k \in DOMAIN j.ls |-> [w |-> SeqSet(j.ls[k].w), s |-> SeqSet(j.ls[k].s),
                                                tw |-> j.ls[k].tw, m |-> j.ls[k].m]],
                 tds |-> FALSE, mds |-> FALSE]
@@ -130,6 +133,14 @@ Report ==
     divergent_edges  |-> [i \in DOMAIN des |-> DescribeEdge(des[i])],
     divergent_probes |-> [i \in DOMAIN dps |-> DescribeProbe(dps[i])],
     move_bad  |-> Listed(EdgesWhere(LAMBDA nd, e : ~EdgeGhost(InitGhost, nd, e).moveOK)),
+    \* the move_bad edges whose request was allowed but left the wrong tip / height / window
+    post_bad  |-> Listed(EdgesWhere(LAMBDA nd, e : e[1] # -2 /\
+                     PostWrong(K, Obs(StateOf(nd)), Alphabet[e[2]], Resp(e[3], e[4]), PostOf(nd, e[1])))),
+    \* accepted removals below the remembered headers (deep-reorg mode), and those of them whose
+    \* supplied filter header was all-zero (accepted without a proof check)
+    deep_retreats |-> Count(EdgesWhere(LAMBDA nd, e : e[3] = 1 /\ Alphabet[e[2]].op = "rm" /\ StateOf(nd).win = <<>>)),
+    deep_retreats_unproved |-> Count(EdgesWhere(LAMBDA nd, e :
+                     UnprovedDeepRetreat(K, Obs(StateOf(nd)), Alphabet[e[2]], Resp(e[3], e[4])))),
     frame_bad |-> Listed(EdgesWhere(LAMBDA nd, e : ~EdgeGhost(InitGhost, nd, e).frameOK)),
     later_bad |-> Listed(ProbesWhere(LAMBDA nd, p : ~GhostProbe(InitGhost, Resp(p[3], p[4])).laterOK)) ]
 
